@@ -322,6 +322,7 @@ mod verif_c03_twins2 {
     //@ obligation C04 C04.PageTableIndex_to_u64.value
     //@ obligation C04 C04.PageTableIndex_to_usize.value
     //@ obligation C04 C04.PageTableIndex_into_u64.value
+    //@ obligation C04 C04.PageTableIndex_to_u32.value
     #[kani::proof]
     fn c04_twin2_page_table_index_new_exact() {
         let i: u16 = kani::any();
@@ -339,6 +340,8 @@ mod verif_c03_twins2 {
                 => "C04.PageTableIndex_to_usize.value: the stored index",
             x.into_u64() == i as u64
                 => "C04.PageTableIndex_into_u64.value: the stored index",
+            u32::from(x) == i as u32
+                => "C04.PageTableIndex_to_u32.value: the stored index",
         }
     }
 
@@ -368,6 +371,8 @@ mod verif_c03_twins2 {
     //@ obligation C04 C04.PageOffset_new.returns_iff_lt_4096
     //@ obligation C04 C04.PageOffset_to_u16.value
     //@ obligation C04 C04.PageOffset_to_u64.value
+    //@ obligation C04 C04.PageOffset_to_u32.value
+    //@ obligation C04 C04.PageOffset_to_usize.value
     #[kani::proof]
     fn c04_twin2_page_offset_new_exact() {
         let o: u16 = kani::any();
@@ -381,6 +386,10 @@ mod verif_c03_twins2 {
                 => "C04.PageOffset_to_u16.value: the stored offset",
             u64::from(x) == o as u64
                 => "C04.PageOffset_to_u64.value: the stored offset",
+            u32::from(x) == o as u32
+                => "C04.PageOffset_to_u32.value: the stored offset",
+            usize::from(x) == o as usize
+                => "C04.PageOffset_to_usize.value: the stored offset",
         }
     }
 
